@@ -109,6 +109,8 @@ struct Shared {
   aborting: Vec<i64>,
   posting: Vec<i64>,
   slow: (i64, u64),
+  /// cases tagged `count`: every emit step first records how many observers its subject holds
+  count: bool,
 }
 
 fn do_step(sh: &Arc<Shared>, st: &Step) {
@@ -156,7 +158,12 @@ fn do_step(sh: &Arc<Shared>, st: &Step) {
     "emit" => {
       let s = sh.w.lock().unwrap().sbj[st.j as usize - 1].clone();
       let src = if st.p != 0 { st.p } else { st.j };
-      ev(json!({"ev": "emitcall", "src": src, "k": st.k, "v": st.v}));
+      if sh.count {
+        let cnt = s.count();
+        ev(json!({"ev": "emitcall", "src": src, "k": st.k, "v": st.v, "cnt": cnt}));
+      } else {
+        ev(json!({"ev": "emitcall", "src": src, "k": st.k, "v": st.v}));
+      }
       match st.k.as_str() {
         "n" => s.next(st.v),
         "e" => s.error(st.v),
@@ -278,7 +285,7 @@ pub fn run_ccase(case: &CCase, strategy: Strategy, log_locks: bool, budget: u64)
       "default_queue" => Sched::Default(schedulers::DefaultScheduler::new()),
       _ => Sched::None,
     };
-    let sh = Arc::new(Shared { w: w.clone(), root, handles: Mutex::new(BTreeMap::new()), sched, fut: Mutex::new(None), aborting: case.aborting.clone(), posting: case.posting.clone(), slow: (case.slow_item, case.slow_ms) });
+    let sh = Arc::new(Shared { w: w.clone(), root, handles: Mutex::new(BTreeMap::new()), sched, fut: Mutex::new(None), aborting: case.aborting.clone(), posting: case.posting.clone(), slow: (case.slow_item, case.slow_ms), count: case.tags.iter().any(|t| t == "count") });
     for st in &case.pre {
       do_step(&sh, st);
     }
@@ -318,7 +325,7 @@ pub fn trace_of(id: u64, case: &CCase, r: &RunResult) -> (Vec<String>, String) {
     let o = v.as_object_mut().unwrap();
     o.insert("t".into(), json!(e.tid));
     o.insert("clk".into(), json!(e.clock / 1_000_000));
-    for f in ["u", "src", "v", "task", "lock", "cv", "issub"] {
+    for f in ["u", "src", "v", "task", "lock", "cv", "issub", "cnt"] {
       o.entry(f).or_insert(json!(0));
     }
     o.entry("k").or_insert(json!(""));
